@@ -191,6 +191,7 @@ func checkC14(c *Ctx) {
 	checkSideMixing(c, "C14.R0.side-mixing", r)
 	checkLoopCarriedLocations(c, r.Pkg)
 	checkMirrorLoops(c, r)
+	checkBalancedPredicates(c, r)
 	// the names the JSON report gives to codes: a deleted-X must not be called added-X
 	c.Rule("C14.R5.toStringSpecChangeCode", "the JSON name of each change code is its own (total, injective, no row carrying another constant's identifier): a deleted-X is never reported as added-X", 150)
 	c.Rule("C14.R5.toLongStringSpecChangeCode", "the text of each change code is its own (total, injective)", 150)
@@ -756,4 +757,69 @@ func mapValues(m map[string]string) []string {
 	}
 	sort.Strings(out)
 	return out
+}
+
+
+// checkBalancedPredicates: a kind predicate (isArray, isRefType, isPrimitive…) that a function
+// applies, in a condition, to a value of one spec must also be applied to the twin value of the
+// other spec somewhere in the conditions of the same function: a branch selected by the old
+// side's kind alone treats "array → object" and "object → array" differently.
+func checkBalancedPredicates(c *Ctx, r *goan.Rel) {
+	rule := "C14.R2.balanced-predicates"
+	c.Rule(rule, "within a function, every same-package predicate applied in a condition to a value of one spec is also applied to a value of the other spec", 6)
+	pk := r.Pkg
+	info := pk.TypesInfo
+	for _, fd := range load.AllFuncs(pk) {
+		fd := fd
+		type cnt struct{ s1, s2 int }
+		counts := map[string]*cnt{}
+		var order []string
+		visit := func(cond ast.Expr) {
+			ast.Inspect(cond, func(n ast.Node) bool {
+				call, ok := n.(*ast.CallExpr)
+				if !ok || len(call.Args) != 1 {
+					return true
+				}
+				fn := goan.Callee(info, call)
+				if fn == nil || fn.Pkg() != pk.Types {
+					return true
+				}
+				sig, _ := fn.Type().(*types.Signature)
+				if sig == nil || sig.Results().Len() != 1 || !types.Identical(sig.Results().At(0).Type(), types.Typ[types.Bool]) {
+					return true
+				}
+				side := r.SideOf(call.Args[0])
+				if side != goan.S1 && side != goan.S2 {
+					return true
+				}
+				k := fn.Name()
+				if counts[k] == nil {
+					counts[k] = &cnt{}
+					order = append(order, k)
+				}
+				if side == goan.S1 {
+					counts[k].s1++
+				} else {
+					counts[k].s2++
+				}
+				return true
+			})
+		}
+		ast.Inspect(fd.Body, func(n ast.Node) bool {
+			switch x := n.(type) {
+			case *ast.IfStmt:
+				visit(x.Cond)
+			case *ast.CaseClause:
+				for _, e := range x.List {
+					visit(e)
+				}
+			}
+			return true
+		})
+		for _, k := range order {
+			ct := counts[k]
+			c.Check(ct.s1 > 0 && ct.s2 > 0, rule, fmt.Sprintf("diff.%s › %s is applied to both specs", load.FuncName(fd), k), c.posOf(pk, fd.Pos()), fmt.Sprintf("%d × old, %d × new", ct.s1, ct.s2),
+				fmt.Sprintf("%s is tested %d time(s) on the old spec's value and %d time(s) on the new one's: the branch it selects is taken for a change of kind in one direction only, so the report of A→B is not the mirror of B→A", k, ct.s1, ct.s2))
+		}
+	}
 }
